@@ -329,6 +329,14 @@ func (s *sessionController) onEnterLoadSessionCheck() {
 	}
 }
 
+// onRenegotiation is invoked when a renegotiation starts. A renegotiation is a new handshake: the
+// crypto/tls hello path (HelloGolang) loads the session again, which is not a double call.
+func (s *sessionController) onRenegotiation() {
+	if s.loadSessionTracker == CalledByGoTLS {
+		s.loadSessionTracker = NeverCalled
+	}
+}
+
 // onLoadSessionReturn is intended to be invoked upon returning from the `conn.loadSession` function.
 // It serves as a validation step for the correctness of the underlying utls implementation.
 // If the utls implementation is incorrect, this function will trigger a panic.
